@@ -23,7 +23,10 @@ def ops_for(ref, h, rich):
     child = bool(ref.handles[h]["path"])
     if k == "dict":
         if child:
-            return [("op", h, "setitem", ("x", 5)), ("op", h, "clear", ()), ("op", h, "reset", ({"q": 1},))] if rich else [("op", h, "setitem", ("x", 5))]
+            # two DISTINGUISHABLE writes through the child even in the reduced alphabet: losing the second one of
+            # `write; leave a context; write` is only visible if it differs from the first
+            return [("op", h, "setitem", ("x", 5)), ("op", h, "clear", ()), ("op", h, "reset", ({"q": 1},))] if rich else \
+                [("op", h, "setitem", ("x", 5)), ("op", h, "setitem", ("y", 6))]
         ev = [("op", h, "setitem", ("a", 1)), ("op", h, "clear", ()), ("op", h, "call", ())]
         if rich:
             ev.append(("op", h, "setpath", (("c",), "x", 5)))
@@ -32,7 +35,7 @@ def ops_for(ref, h, rich):
                    ("op", h, "setdefault", ("sd", [1]))]
         return ev
     if child:
-        return [("op", h, "append", (5,)), ("op", h, "clear", ())] if rich else [("op", h, "append", (5,))]
+        return [("op", h, "append", (5,)), ("op", h, "clear", ())] if rich else [("op", h, "append", (5,)), ("op", h, "append", (6,))]
     ev = [("op", h, "append", (1,)), ("op", h, "clear", ()), ("op", h, "call", ())]
     if rich:
         ev.append(("op", h, "setpath", ((1,), "x", 5)))
@@ -128,12 +131,14 @@ def plan(tier, seed):
                 cfg = seq.Config(c, initial=(INIT[k],), objects=(0,),
                                  prefix=PREFIX[k](0, 1) if childhandle else (("op", 0, "len", ()),), label=lab)
                 dd = d1 if not childhandle else d1 - 1
+                if childhandle and fam == "MemoryBuffered" and tier == "quick":
+                    dd = 5  # enter_cls, enter, op, exit, op-through-the-retained-child: the shortest 'busy context' history
                 kw = dict(label="%s/d%d" % (lab, dd), cfg=cfg, alphabet="alphabet", depth=dd,
                           oracles={"result", "resource", "nowrite", "ctxerr"}, hooks="probe",
                           extra={"rich": not childhandle, "max_nest": 3})
                 if tier != "quick":
                     kw["max_transitions"] = 50000
-                tasks += seqcheck.split((8 if tier == "quick" else 16) if not childhandle else 4, **kw)
+                tasks += seqcheck.split((8 if tier == "quick" else 16) if not childhandle else (8 if dd >= 5 else 4), level=2, **kw)
             if fam in ("Buffered", "MemoryBuffered") or tier != "quick":
                 d2 = 4 if tier == "quick" else 6
                 cfg = seq.Config(c, initial=(INIT[k], INIT[k]), objects=(0, 1), label=c + "/2files")
